@@ -130,6 +130,10 @@ class _CenterManifoldInterface(
         H_blocks = hamsys.poly_H()
         clmo_table = hamsys.clmo_table
         
+        if getattr(config.integration, "forward", 1) != 1:
+            # The map kernels only step forward in time; do not answer a backward request with the forward map.
+            raise NotImplementedError("Centre-manifold Poincare maps are computed forward in time only (integration.forward must be 1).")
+
         section_coord = config.section_coord
         dt = options.integration.dt
         n_iter = options.iteration.n_iter
